@@ -403,6 +403,31 @@ def is_nonneg(t):
     return True
 
 
+ASSUMED_GE0 = []      # terms known to be >= 0 in the case under analysis (pushed by compare while it explores a case)
+
+
+def ge0(t, depth=0):
+    """t >= 0 under the sign table and the assumptions of the current case; also decides  r - max(..) and r + min(..)"""
+    if is_nonneg(t):
+        return True
+    if depth > 3:
+        return False
+    for d in ASSUMED_GE0:
+        if is_nonneg(t - d):
+            return True
+    for m, c in t.p.items():
+        if len(m) == 1 and m[0][1] == 1 and m[0][0].kind == 'call' and m[0][0].args[0] in ('min', 'max') and not m[0][0].args[2]:
+            a = m[0][0]
+            rest = t - Term({m: c})
+            if abs(c) != 1:
+                continue
+            alts = [rest + (x if c == 1 else -x) for x in a.args[1]]
+            need_all = (a.args[0] == 'max' and c == -1) or (a.args[0] == 'min' and c == 1)
+            if (all if need_all else any)(ge0(x, depth + 1) for x in alts):
+                return True
+    return False
+
+
 def is_integer(t):
     for m, c in t.p.items():
         if c.denominator != 1:
@@ -752,6 +777,11 @@ def mk_call(fn, args=(), kwargs=()):
                 # the two differ by a constant: min(n, n - 1) == n - 1
                 smaller, larger = (args[0], args[1]) if d <= 0 else (args[1], args[0])
                 return smaller if fn == 'min' else larger
+            if _numeric_like(args[0]) and _numeric_like(args[1]):
+                if ge0(args[0] - args[1]):
+                    return args[1] if fn == 'min' else args[0]
+                if ge0(args[1] - args[0]):
+                    return args[0] if fn == 'min' else args[1]
         args = sorted(args, key=lambda a: a.key)
     if fn == 'floordiv' and len(args) == 2:
         a, b = args
@@ -1307,12 +1337,40 @@ def _basic_conds(c, out):
         out[c.key] = c
 
 
-def assume(t, assignment):
-    """Substitute truth values for basic conditions (dict cond-term-key -> bool) and re-simplify."""
+def assume(t, assignment, conds=None):
+    """Substitute truth values for basic conditions (dict cond-term-key -> bool) and re-simplify.
+    conds (key -> Term of the assigned conditions): type tests implied by the assigned ones are decided too
+    (isinstance(x, tuple) holds  =>  isinstance(x, (list, tuple)) holds;  the latter fails  =>  the former fails)."""
+    facts = []
+    if conds:
+        for k, v in assignment.items():
+            info = _isinstance_info(conds[k]) if k in conds else None
+            if info is not None and info[1]:
+                facts.append((info[0], info[1], v))
+
     def fn(a):
         tk = Term.of(a).key
         if tk in assignment:
             return TRUE if assignment[tk] else FALSE
+        if facts and a.kind == 'call' and a.args[0] == 'isinstance':
+            info = _isinstance_info(Term.of(a))
+            if info is not None and info[1]:
+                for subj, names, val in facts:
+                    if subj != info[0]:
+                        continue
+                    if val and names <= info[1]:
+                        return TRUE
+                    if not val and info[1] <= names:
+                        return FALSE
+                    if not val and names < info[1]:
+                        # not a B, so "an A or a B" means "an A"
+                        ca = a.args[1][1].single_atom()
+                        items = list(ca.args) if ca is not None and ca.kind == 'tuple' else None
+                        if items:
+                            rest = [x for x in items if not (x.single_atom() is not None and x.single_atom().kind in (
+                                'builtin', 'ext', 'class') and str(x.single_atom().args[0]).split('.')[-1] in names)]
+                            if rest and len(rest) < len(items):
+                                return mk_call('isinstance', [a.args[1][0], rest[0] if len(rest) == 1 else mk_tuple(rest)])
         return None
     return subst(t, fn)
 
@@ -1381,8 +1439,24 @@ def compare(a, b, max_conds=8):
             asg2[k] = val
             if _infeasible(asg2, allc):
                 continue
+            # sign facts of this case (d < 0 holds / fails) are available to the normaliser while the case is explored
+            npush = 0
+            for k_, v_ in asg2.items():
+                ca_ = allc[k_].single_atom() if k_ in allc else None
+                if ca_ is not None and ca_.kind == 'cmp' and ca_.args[0] in ('<', '==') and _numeric_like(ca_.args[1]) \
+                        and ca_.args[2].const() == 0:
+                    if ca_.args[0] == '<':
+                        ASSUMED_GE0.append(-ca_.args[1] if v_ else ca_.args[1])
+                        npush += 1
+                    elif v_:
+                        ASSUMED_GE0.extend([ca_.args[1], -ca_.args[1]])
+                        npush += 2
             # (the whole assignment is re-applied: deciding k may re-create a condition that was decided earlier)
-            v, w = rec(assume(x, asg2), assume(y, asg2), asg2)
+            try:
+                v, w = rec(assume(x, asg2, allc), assume(y, asg2, allc), asg2)
+            finally:
+                if npush:
+                    del ASSUMED_GE0[-npush:]
             if v == DIFFERENT:
                 return v, w
             if v == UNDECIDED:
@@ -1453,6 +1527,16 @@ def _infeasible(asg, conds):
                     and not (set(groups_a) & set(groups_b)):
                 return True
         true_tests.setdefault(subj, []).append(names)
+    # isinstance(x, A) holds but isinstance(x, (A, B)) does not: impossible
+    for k, v in asg.items():
+        if v:
+            continue
+        info = _isinstance_info(conds[k])
+        if info is None:
+            continue
+        subj, names = info
+        if any(t and t <= names for t in true_tests.get(subj, [])):
+            return True
     return False
 
 
